@@ -5,6 +5,7 @@ import Driver.SchedEng
 import Driver.FixupEng
 import Driver.ArgCheck
 import Driver.Equil
+import Driver.Read
 
 def readAll (h : IO.FS.Stream) : IO String := do
   let mut acc := ""
@@ -20,6 +21,7 @@ def main (args : List String) : IO UInt32 := do
   | ["lucheck"] => Drv.lucheckMain (← readAll stdin)
   | ["pivot"] => Drv.pivotMain (← readAll stdin)
   | ["factor"] => Drv.factorMain (← readAll stdin)
+  | ["read"] => Drv.readMain (← readAll stdin)
   | ["equil"] => Drv.equilMain (← readAll stdin)
   | ["argcheck"] => Drv.argcheckMain (← readAll stdin)
   | ["fixup"] => Drv.fixupMain (← readAll stdin)
